@@ -491,4 +491,28 @@ def dprptrln (v : BitVec 64) : Option (List Byte) := (printhexPtr v).map (· ++ 
 /-- `debug_print((const char *)0)` -/
 def debugPrintNull : List Byte := [0x4E#8, 0x55#8, 0x4C#8, 0x4C#8]
 
+/-! # Extension round 3b: `debug_printhex_n` at the C width of its `int n`
+
+  `uint8_t *p = arg + n; while (n--) debug_printhex_uint8(*--p);`  `printhexN` above is the routine for the
+  `n ≥ 0` every caller passes.  Here `n` is the 32-bit `int` the prototype declares: `arg + n` with a negative
+  `n` is a pointer in front of `arg` (in front of the OBJECT it is undefined: `none`), the test `n--` reads `n`
+  and decrements it — decrementing `INT_MIN` is signed overflow, undefined: `none` — and the loop ends only
+  when the test reads 0.  Explicit fuel (2^32 + 1 tests at most: from `INT_MIN + 1` down no test can be
+  reached, from `INT_MAX` down to 0 there are 2^31). -/
+
+def hexNLoopI (mem : Array Byte) : Nat → Int → Nat → List Byte → Option (List Byte)
+  | 0, _, _, _ => none
+  | fuel + 1, n, p, out =>
+    if n = -2147483648 then none                      -- `n--` on INT_MIN
+    else if n = 0 then some out                       -- the test reads 0 (n becomes -1)
+    else if p = 0 then none                           -- `--p` leaves the object
+    else match mem[p - 1]? with
+      | none => none
+      | some b => hexNLoopI mem fuel (n - 1) (p - 1) (emit out (printhexU8 b))
+
+/-- `void debug_printhex_n(uint8_t *arg, int n)`, `arg = mem + arg` -/
+def printhexNI (mem : List Byte) (arg : Nat) (n : BitVec 32) : Option (List Byte) :=
+  if (arg : Int) + n.toInt < 0 then none              -- arg + n in front of the object
+  else (hexNLoopI mem.toArray 4294967297 n.toInt ((arg : Int) + n.toInt).toNat []).map List.reverse
+
 end Igris.C07
